@@ -3,7 +3,7 @@
    of mutations from the default has the spec root, the spec serialization and the
    component values (C01 routes "deserialization" and "chain of mutations", C02 second
    sentence, C04 observables). *)
-From Ztyp Require Import Base Tree Types Spec View Mut VMach Repr.
+From Ztyp Require Import Base Tree Types Spec Reader View Mut VMach Repr.
 From Ztyp Require Import ReprProofs SerProofs DecodeProofs MutProofs SizeProofs.
 Open Scope N_scope.
 
@@ -95,3 +95,48 @@ Proof.
 Qed.
 
 End Routes.
+
+(* ---- C13 at decoder level: a stream that ends before the declared scope is satisfied never
+   yields a value (the reader model with fewer bytes in the stream than the scope) ---- *)
+Section ShortStream.
+Variable zh : nat -> chunk.
+
+Lemma avail_top_le_stream : forall bs scope,
+  avail (fst (new_reader bs scope)) (d_chain (snd (new_reader bs scope))) <= lenN bs.
+Proof.
+  intros bs scope. unfold new_reader, avail, lim_get. cbn.
+  apply N.le_min_r.
+Qed.
+
+Lemma short_stream_decode :
+  forall t delivered scope,
+    wf_ty t = true -> small_params t = true -> sizes_ok t = true ->
+    scope < 2 ^ 32 -> leaf_ok t scope ->
+    lenN delivered < scope ->
+    view_deserialize_scoped zh t delivered scope = Err.
+Proof.
+  intros t delivered scope Hwf Hsp Hsz Hsc Hleaf Hshort.
+  unfold view_deserialize_scoped.
+  destruct (new_reader delivered scope) as [st d] eqn:Hnr.
+  destruct (view_deser zh t st d) as [[n st']| |] eqn:Hd; cbn.
+  - exfalso.
+    assert (Hst : st = fst (new_reader delivered scope)) by (rewrite Hnr; reflexivity).
+    assert (Hdd : d = snd (new_reader delivered scope)) by (rewrite Hnr; reflexivity).
+    assert (Hrinv : rinv st d).
+    { subst st d. unfold new_reader, rinv, chain_ok. cbn.
+      split; [split; [repeat constructor; intros []|repeat constructor]|].
+      split; [apply N.le_0_l|exact Hsc]. }
+    assert (Hscope : dr_scope d = scope).
+    { subst d. unfold new_reader, dr_scope. cbn. apply N.sub_0_r. }
+    destruct (deser_local zh t st d n st' Hwf Hsp Hsz Hrinv) as [Hav _].
+    { rewrite Hscope. exact Hleaf. }
+    { exact Hd. }
+    rewrite Hscope in Hav.
+    pose proof (avail_top_le_stream delivered scope) as Hle.
+    rewrite <- Hst, <- Hdd in Hle.
+    eapply N.lt_irrefl. eapply N.le_lt_trans; [|exact Hshort].
+    eapply N.le_trans; eassumption.
+  - reflexivity.
+  - exfalso. eapply view_deser_no_panic. exact Hd.
+Qed.
+End ShortStream.
